@@ -26,7 +26,12 @@ def real_run(fedjax, n, bs, k, mode, drop, variant, chain, sliced=0):
   ref = bat.apply_chain(chain, raw)
   # the chain as callers may pass it: a tuple, a list, or a one-shot iterable (generator / map)
   fns = bat.CHAINS[chain]
-  pre = fedjax.BatchPreprocessor((fns, list(fns), (f for f in fns), map(lambda f: f, fns))[(n + bs + sliced) % 4])
+  if (n + bs + sliced) % 5 == 4:
+    pre = fedjax.BatchPreprocessor()       # ... or built up one function at a time
+    for f_ in fns:
+      pre = pre.append(f_)
+  else:
+    pre = fedjax.BatchPreprocessor((fns, list(fns), (f for f in fns), map(lambda f: f, fns))[(n + bs + sliced) % 5])
   if sliced:
     parent = fedjax.ClientDataset(bat.raw_examples(n + 5, variant, offset=-2), pre)     # ids -1 .. n+3
     ds = parent[2:n + 2] if sliced == 1 else parent[1:][:n + 1][1:]
